@@ -18,14 +18,23 @@ const verifrtPath = "/internal/verifrt."
 
 func lookupIntrinsic(ex *Exec, fn *ssa.Function) intrinsic {
 	name := fn.String()
-	if in, ok := intrinsicTable[name]; ok {
-		return in
-	}
 	if i := strings.Index(name, verifrtPath); i >= 0 {
 		if in, ok := verifrtTable[name[i+len(verifrtPath):]]; ok {
 			return in
 		}
 		return nil
+	}
+	// a stub provided by the running harness has priority over the engine's own models
+	if st := ex.eng.stubFor(ex, fn); st != nil {
+		return func(ex *Exec, _ *ssa.Function, args []Value) Value {
+			// the stub may call the real function: inside it the interception is off
+			ex.bypass[fn] = true
+			defer delete(ex.bypass, fn)
+			return ex.call(st, args, nil)
+		}
+	}
+	if in, ok := intrinsicTable[name]; ok {
+		return in
 	}
 	pkg := ""
 	if fn.Pkg != nil {
